@@ -1,6 +1,6 @@
 (* C16: the lemmas in the exact shape of the property theorems. *)
 From V Require Import Common.Base C16.Checked C16.Spec C16.Wtf8 C16.Wtf8Proofs C16.Vlq16 C16.Vlq16Proofs
-  C16.CssNum C16.CssNumProofs C16.Pieces C16.PiecesProofs C16.Packet C16.PacketProofs C16.CssIdent C16.CssIdentProofs.
+  C16.CssNum C16.CssNumProofs C16.Pieces C16.PiecesProofs C16.Packet C16.PacketProofs C16.CssIdent C16.CssIdentProofs C16.JsxEntities C16.JsxEntitiesProofs.
 
 Lemma all_bytes_bytes_ok s : all_bytes s <-> bytes_ok s.
 Proof. reflexivity. Qed.
@@ -62,3 +62,9 @@ Proof. intros t Hb. apply safe_not_crash_hang. apply RangeOfIdentifier_guarded_t
 
 Lemma unguarded_RangeOfIdentifier_hangs : forall fuel, RangeOfIdentifier_fuel false [120] fuel = Hang.
 Proof. exact RangeOfIdentifier_unguarded_hangs. Qed.
+
+Lemma total_decodeJSXEntities : forall lookup, total_on all_bytes (decodeJSXEntities true lookup).
+Proof. intros lk t Hb. apply safe_not_crash_hang. apply decodeJSXEntities_total. exact Hb. Qed.
+
+Lemma weak_guard_decodeJSXEntities_crashes : forall lookup, decodeJSXEntities false lookup [38; 59] = Crash.
+Proof. exact decodeJSXEntities_weak_guard_crashes. Qed.
